@@ -68,10 +68,13 @@ func Verify[H Header[H]](trstd, untrstd H) error {
 	}
 	// check adjacency of failed verification
 	adjacent := untrstd.Height() == trstd.Height()+1
-	if !adjacent {
+	if !adjacent && !verErr.SoftFailure {
 		// if non-adjacent, we don't know if the header is *really* wrong
-		// so set as soft
-		verErr.SoftFailure = true
+		// so set as soft - on a copy: the error value belongs to the Header implementation,
+		// which may return the same one again for a header that is adjacent
+		soft := *verErr
+		soft.SoftFailure = true
+		verErr = &soft
 	}
 	// we trust adjacent verification to it's fullest
 	// if verification fails - the header is *really* wrong
